@@ -12,3 +12,24 @@ Definition sw_write (cap : nat) (buf p : bytes) : bytes :=
     else buf ++ p.
 
 Definition sw_run (cap : nat) (ps : list bytes) : bytes := fold_left (sw_write cap) ps [].
+
+(* ---------------- trimLastFourBytesWriter.Write (compress.go:94-134), as a pure function: the chunks handed downstream and the new tail ---------------- *)
+(* ---------------- the trim writer (compress.go:94-134), as a pure function on (tail, chunk) ---------------- *)
+Definition trim_step (tail p : bytes) : list bytes * bytes :=
+  let lt := length tail in let lp := length p in
+  if Nat.leb (lt + lp) 4 then ([], tail ++ p)
+  else
+    let extra := Nat.min (lt + lp - 4) lt in
+    let o1 := if Nat.ltb 0 extra then [firstn extra tail] else [] in
+    let tail1 := skipn extra tail in
+    if Nat.leb lp 4 then (o1, tail1 ++ p)
+    else (o1 ++ [firstn (lp - 4) p], tail1 ++ skipn (lp - 4) p).
+
+
+(* a whole stream of chunks: everything but the last four bytes goes downstream, in order; the tail is the last four *)
+Fixpoint trim_run (tail : bytes) (ps : list bytes) : list bytes * bytes :=
+  match ps with
+  | [] => ([], tail)
+  | p :: r => let '(o, t1) := trim_step tail p in let '(os, t2) := trim_run t1 r in (o ++ os, t2)
+  end.
+
